@@ -2,6 +2,7 @@ import VecModel.Lemmas.Sparse
 import VecModel.Lemmas.BPE
 import VecModel.Props.C09
 import Mathlib.Data.Matrix.Mul
+import VecModel.Props.C16
 /-
   C02 — fit_transform(X) equals fit(X).transform(X).
   The pipelines that the code keeps separate are modelled separately and proved equal:
@@ -66,5 +67,13 @@ example :
     assignRows ([] : List (String × Nat)) [[("", 1), ("a", 2)], [("", 1), ("b", 1), ("a", 1)]] =
       ([("", 0), ("a", 1), ("b", 2)], [[(0, 1), (1, 2)], [(0, 1), (2, 1), (1, 1)]]) := by
   decide
+
+/-- **LZCompressionVectorizer** (its own model, Props/C16): transforming the training strings with the
+fitted column dictionary reproduces the `fit_transform` rows exactly — any hash, base dictionary, cap. -/
+theorem lz_fit_transform_eq_transform {κ : Type} [DecidableEq κ] (h : List Nat → κ) (cap : Nat)
+    (base : LZ.Dict κ) (X : List (List Nat)) (rows : List (List (Nat × Nat))) (cols : LZ.Dict κ)
+    (hfit : LZ.fitTransform h cap base X = .ok (rows, cols)) :
+    LZ.transform h cap base cols X = .ok rows :=
+  (LZ.phrase_column_stable h cap base X rows cols hfit).1
 
 end VecModel.C02
